@@ -79,6 +79,7 @@ type Sched struct {
 	// plan
 	FaultAt       map[int]FaultKind // 1-based index of released call -> fault
 	CancelAfter   int               // cancel request 0 after this many released calls (-1: never)
+	Latency       time.Duration     // simulated duration of every released storage call
 	Sticky        int               // > 1: the request released last is released again with probability 1-1/Sticky (bursts)
 	lastReq       int
 	LockSites     string // substring of the simlock sites that are scheduling points ("" none)
@@ -140,6 +141,17 @@ func (s *Sched) Enter(ctx context.Context, op, key string) (error, bool) {
 	s.parked = append(s.parked, p)
 	s.mu.Unlock()
 	m := <-p.ch
+	if s.Latency > 0 && m.err == nil {
+		// the call takes simulated time; a context that ends meanwhile ends the call
+		// (the plan keeps deadlines off the multiples of the latency: no ties)
+		tm := time.NewTimer(s.Latency)
+		select {
+		case <-tm.C:
+		case <-ctx.Done():
+			tm.Stop()
+			return ctx.Err(), m.late
+		}
+	}
 	return m.err, m.late
 }
 
@@ -290,7 +302,11 @@ func (s *Sched) Drive(done func() bool, maxSteps int) DriveOutcome {
 			// a sleep. Let simulated time pass before calling it a hang.
 			if s.idleRounds < 200 {
 				s.idleRounds++
-				time.Sleep(250 * time.Millisecond)
+				idle := 250 * time.Millisecond
+				if s.Latency > 0 {
+					idle = s.Latency / 4 // (a storage call in progress: look again soon)
+				}
+				time.Sleep(idle)
 				continue
 			}
 			return DriveHang
